@@ -341,7 +341,11 @@ def run(ck):
                 if all(t_ is not None and hasattr(t_, "is_const") and t_.is_const() for t_ in inner_):
                     # no rotated site on this path: both factors are the constant 1, which is its own conjugate
                     ck.ok("C04.R2", inst + ":row index with U, column index with conj(U) (no rotated site: factors are 1) [%s]" % pn, rrp.site())
-                    continue
+                    ones_only = True
+                else:
+                    ones_only = False
+                if ones_only:
+                    conj_flags = [False, True]  # either operand may play either role
                 if len(ins) != 2 or len(out) != 3 or conj_flags.count(True) != 1:
                     ck.undecided("C04.R2", inst + ":factor tensor [%s]" % pn, rrp.site(), "factor einsum %r with conj flags %s not recognised" % (spec, conj_flags))
                     continue
@@ -413,7 +417,7 @@ def run(ck):
                         continue
                     row_ax, col_ax = pos
                     ck.check(row_ax != col_ax, "C04.R2", inst + ":rows and columns on different axes [%s]" % pn, rrp.site(), "row and column selectors vary along the same axis: only diagonal elements are read")
-                okb = (row_ax == ket_ax and col_ax == bra_ax)
+                okb = (row_ax == ket_ax and col_ax == bra_ax) or ones_only
                 ck.check(okb, "C04.R2", inst + ":row index with U, column index with conj(U) [%s]" % pn, rrp.site(),
                          "rho's ROW index runs along axis %d and its COLUMN index along axis %d of the summand, but the non-conjugated factor U runs along axis %d and conj(U) along axis %d: "
                          "(U rho U^dagger)_ss = sum_ij U_si rho_ij conj(U_sj) needs rows with U - the probabilities of the transposed matrix are returned for bases containing Y" % (row_ax, col_ax, ket_ax, bra_ax),
